@@ -41,13 +41,16 @@ const (
 	slack     = 32      // the constant c of the verdict (identical footprints are the rule on the unchanged tree)
 	heapSlack = 1 << 20 // retained-heap tolerance of the weak oracle, bytes
 	factor    = 8
+	window    = 16 // output-based snapshots: component-wise minimum over this many consecutive outputs (all phases of a multi-output turn)
 )
 
 var fpKeys = []string{"forks", "stack.data", "stack.index", "stack.limit", "scopes.data", "scopes.index", "scopes.limit", "paths.data", "paths.index", "values", "offset"}
 
 // progCase is the replay format of every sub-check.
 //
-//	mode "out":     one iterator; snapshots after the n-th and the 8n-th output.
+//	mode "out":     one iterator; snapshots after the n-th and the 8n-th output
+//	                (component-wise minimum over the next 16 outputs, so that
+//	                every phase of a multi-output turn is covered on both sides).
 //	mode "tick":    one iterator; snapshots taken from inside the run at the
 //	                n-th and 8n-th call of tick / nat / the input iterator
 //	                (and after the n-th / 8n-th output when that many appear).
@@ -138,7 +141,8 @@ type result struct {
 	Polls    int
 	TickSnap [2]map[string]int
 	TickHeap [2]uint64
-	OutSnap  [2]map[string]int
+	OutSnap  [2]map[string]int // component-wise minimum over outputs cp .. cp+window-1
+	OutCnt   [2]int            // how many outputs of the window were seen
 	OutHeap  [2]uint64
 	Final    map[string]int
 	FinHeap  uint64
@@ -209,9 +213,19 @@ func execute(prog, input string, size int, cps [2]int, stopOut, stopTick int, he
 		res.Outputs++
 		res.Last = v
 		for i, cp := range cps {
-			if res.Outputs == cp {
-				res.OutSnap[i] = gojq.VerifFootprint(it)
-				if heap {
+			if cp > 0 && res.Outputs >= cp && res.Outputs < cp+window {
+				fp := gojq.VerifFootprint(it)
+				if res.OutSnap[i] == nil {
+					res.OutSnap[i] = fp
+				} else {
+					for k, v := range fp {
+						if v < res.OutSnap[i][k] {
+							res.OutSnap[i][k] = v
+						}
+					}
+				}
+				res.OutCnt[i]++
+				if heap && res.Outputs == cp {
 					res.OutHeap[i] = heapNow()
 				}
 			}
@@ -322,15 +336,15 @@ func check(c progCase) (string, info) {
 	n, big := c.N, factor*c.N
 	switch c.Mode {
 	case "out", "tick", "control":
-		size := big + 8
+		size := big + window + 8
 		stopOut, stopTick := 0, 0
 		if c.Mode == "out" {
-			stopOut = big
+			stopOut = big + window
 			if c.Input != "flat" {
 				size = 4 * big // filtered streams over the scripted sources need more of them
 			}
 		} else {
-			stopTick = big + 4
+			stopTick = big + window + 4
 		}
 		res, err := execute(c.Prog, c.Input, size, [2]int{n, big}, stopOut, stopTick, c.Heap, stepBudget(n))
 		if err != nil {
@@ -358,6 +372,9 @@ func check(c progCase) (string, info) {
 			return fmt.Sprintf("instrument check: a recursion of depth %d and of depth %d show the same footprint\n  at %d: %s\n  at %d: %s", n, big, n, fpText(a), big, fpText(b)), inf
 		}
 		inf.Identical = true
+		if res.OutCnt[0] < window || res.OutCnt[1] < window {
+			res.OutSnap = [2]map[string]int{} // incomplete window: the phases would not match
+		}
 		if c.Mode == "out" {
 			inf.Turns = res.Outputs
 			inf.NT = res.OutSnap[1] != nil
@@ -809,7 +826,7 @@ func TestC20(t *testing.T) {
 
 	// (R1) generated tail-recursive definitions
 	r1 := func() {
-		rec.Rapid(t, "tailrec", rec.Scale(2000, 12000), func(t *rapid.T) {
+		rec.Rapid(t, "tailrec", rec.Scale(2000, 7000), func(t *rapid.T) {
 			c, classes := genTailRec(t)
 			if msg := judge("tailrec", c, classes...); msg != "" {
 				t.Fatalf("%s", rec.Fail("tailrec", c, "%s", msg))
@@ -818,7 +835,7 @@ func TestC20(t *testing.T) {
 	}
 	// (R2) generated compositions of the built-in iteration forms
 	r2 := func() {
-		rec.Rapid(t, "compose", rec.Scale(2000, 12000), func(t *rapid.T) {
+		rec.Rapid(t, "compose", rec.Scale(2000, 7000), func(t *rapid.T) {
 			c, classes := genCompose(t)
 			if msg := judge("compose", c, classes...); msg != "" {
 				t.Fatalf("%s", rec.Fail("compose", c, "%s", msg))
